@@ -355,13 +355,13 @@ def run_batch(ctx, rng, idx):
         fd = np.concatenate(pd)
         # rmsd = sqrt(E) with E in float32: compare squares (near zero the
         # square root amplifies float32 noise to ~1e-3)
-        if np.any(np.abs(fd ** 2 - mn ** 2) > 2e-5):
+        if np.any(np.abs(fd ** 2 - mn ** 2) > 2e-5 * (1 + mn ** 2)):
             i = int(np.argmax(np.abs(fd ** 2 - mn ** 2)))
             ctx.violation('batch_reassign.distance-not-minimal',
                           'frame %d: reported %.6g, min rmsd %.6g' % (
                               i, fd[i], mn[i]))
         own = D[np.arange(len(fa)), fa]
-        if np.any(own ** 2 > mn ** 2 + 2e-5):
+        if np.any(own ** 2 > mn ** 2 + 2e-5 * (1 + mn ** 2)):
             ctx.violation('batch_reassign.label-not-nearest',
                           'some frame is labelled with a farther center')
         if len(batches) >= 2 and not square:
@@ -414,13 +414,14 @@ def run_traj(ctx, rng, idx):
         ctx.violation('assign.traj.labels', 'labels %s for %d centers' % (
             a.tolist(), k))
         return
-    if np.any(np.abs(dd ** 2 - mn ** 2) > 2e-5):
+    if np.any(np.abs(dd ** 2 - mn ** 2) > 2e-5 * (1 + mn ** 2)):
         i = int(np.argmax(np.abs(dd ** 2 - mn ** 2)))
         ctx.violation('assign.traj.distance-not-minimal[%s]' % (
             'more-centers' if k > n_frames else 'fewer'),
             'frame %d: reported %.6g, minimal rmsd over the centers %.6g '
             '(centers given as %s)' % (i, dd[i], mn[i], desc['centers_as']))
-    elif np.any(D[np.arange(n_frames), a] ** 2 > mn ** 2 + 2e-5):
+    elif np.any(D[np.arange(n_frames), a] ** 2 > mn ** 2 +
+                2e-5 * (1 + mn ** 2)):
         ctx.violation('assign.traj.label-not-nearest[%s]' % (
             'more-centers' if k > n_frames else 'fewer'),
             'a frame is labelled with a farther center')
